@@ -71,7 +71,7 @@ def run_history(job):
     rec.update(develop=develop, jobs=jobs, edits=edits)
     base = os.path.join(job["tmp"], "h-" + "".join(c if c.isalnum() else "_" for c in job["key"]))
     shutil.rmtree(base, ignore_errors=True)
-    simA = bs.Sim(os.path.join(base, "a"), job["repo"])
+    simA = bs.Sim(os.path.join(base, "a"), job["repo"], job["deadline"] + 15)
     rec["root"] = simA.root
     known = set()
     try:
@@ -82,6 +82,16 @@ def run_history(job):
                 hist = hist[:i]
                 break
             bs.render(proj, simA.root)
+            if i > 0 and r.random() < 0.2:
+                # an invocation that leaves stale state by request (--no-deps / --checkout-only) in between
+                flag = r.choice(["-n", "-B"])
+                argvx = _argv(proj, jobs, False) + [flag]
+                resx = simA.invoke(develop, argvx)
+                obsx = bs.observe(simA, resx, known)
+                known |= set(obsx["state"])
+                rec["invs"].append({"i": i - 0.5, "proj": proj, "argv": argvx, "force": False, "rc": resx["rc"],
+                                    "error": resx["error"], "log": resx["log"], "obs": obsx, "tail": "",
+                                    "flags": {"noDeps": flag == "-n", "checkoutOnly": flag == "-B"}})
             force = r.random() < 0.06 and i > 0
             argv = _argv(proj, jobs, force)
             res = simA.invoke(develop, argv)
@@ -96,7 +106,7 @@ def run_history(job):
             proj, argv, res, obs = last
             final = {"proj": proj, "argv": [a for a in argv if a != "-f"]}
             # from-scratch build of the final project state in an empty copy
-            simB = bs.Sim(os.path.join(base, "b"), job["repo"])
+            simB = bs.Sim(os.path.join(base, "b"), job["repo"], job["deadline"] + 15)
             bs.render(proj, simB.root)
             resB = simB.invoke(develop, final["argv"])
             final["rcA"], final["rcB"] = res["rc"], resB["rc"]
@@ -126,6 +136,8 @@ def run_history(job):
             elif resB["rc"] != 0:
                 final["tailB"] = resB["stdout"][-1500:]
             rec["final"] = final
+    except bs.OutOfTime:
+        rec["truncated"] = True
     finally:
         bs.shutdown_servers()
         if not job.get("keep"):
@@ -135,7 +147,8 @@ def run_history(job):
 
 def _jobs(ctx, n, n_edits, tag, **kw):
     deadline = time.time() + max(5.0, ctx.time_left() * kw.pop("share", 0.5))
-    return [dict(repo=ctx.repo, tmp=ctx.tmp, key="%s-%d-%s-%d" % (ctx.prop, ctx.seed, tag, i), n_edits=n_edits,
+    # history lengths 1..n_edits: the short ones complete under any machine load
+    return [dict(repo=ctx.repo, tmp=ctx.tmp, key="%s-%d-%s-%d" % (ctx.prop, ctx.seed, tag, i), n_edits=1 + (i * 7) % n_edits,
                  deadline=deadline, **kw) for i in range(n)]
 
 
@@ -146,7 +159,7 @@ def judge_history(ctx, rec):
     for inv in rec["invs"]:
         nontrivial = any(e[0] in ("run", "emptyDir") for e in inv["log"])
         ctx.case((rec["key"], inv["i"]), nontrivial=nontrivial,
-                 sample={"key": rec["key"], "edit": (rec.get("edits") or [None] * 99)[min(inv["i"], len(rec.get("edits") or []) - 1)],
+                 sample={"key": rec["key"], "edit": (rec.get("edits") or [None] * 99)[min(int(inv["i"] + 0.5), len(rec.get("edits") or []) - 1)],
                          "argv": inv["argv"], "micro_ops": len(inv["log"]), "rc": inv["rc"]})
         ctx.count("micro_ops_per_invocation", min(len(inv["log"]) // 10 * 10, 100))
         for e in inv["log"]:
@@ -208,8 +221,10 @@ def model_requests(rec):
         if not obs["steps"] or not obs["roots"] or obs["unsupported"]:
             break
         paths |= set(obs["state"])
-        req = {"op": "invoke", "cfg": {"force": inv["force"], "cleanBuild": not rec["develop"], "checkoutOnly": False,
-                                        "noDeps": False, "attic": True},
+        fl = inv.get("flags", {})
+        req = {"op": "invoke", "cfg": {"force": inv["force"], "cleanBuild": not rec["develop"],
+                                        "checkoutOnly": bool(fl.get("checkoutOnly")), "noDeps": bool(fl.get("noDeps")),
+                                        "attic": True},
                "steps": obs["steps"], "root": obs["roots"][0], "fuel": None, "junk": "", "fail": {},
                "stateful": [], "paths": sorted(paths)}
         if inv.get("model"):
